@@ -109,4 +109,22 @@ theorem loadLoop_installs_first_success (fails : List (Option (List (Nat × Nat)
     subst this
     simpa [loadLoop] using ih (fun r hr => hf r (by simp [hr]))
 
+
+theorem count_one_of_nodup (ls : List Nat) (hn : ls.Nodup) (x : Nat) (hx : x ∈ ls) : ls.count x = 1 := by
+  induction ls with
+  | nil => cases hx
+  | cons a t ih =>
+    have hna : a ∉ t := (List.nodup_cons.mp hn).1
+    have hnt := (List.nodup_cons.mp hn).2
+    by_cases h : a = x
+    · subst h
+      have : t.count a = 0 := List.count_eq_zero.mpr hna
+      simp [List.count_cons, this]
+    · have hxa : ¬ x = a := fun e => h e.symm
+      have hx' : x ∈ t := by
+        rcases List.mem_cons.mp hx with e | e
+        · exact absurd e hxa
+        · exact e
+      simp [List.count_cons, h, ih hnt hx']
+
 end GoZero.C13
